@@ -162,10 +162,6 @@ impl SqlEnv {
         }
         Ok(())
     }
-
-    pub fn total_rows(&self) -> i64 {
-        self.tdb.conn().query_row("SELECT COUNT(*) FROM orchard_ironwood_migrations", [], |r| r.get(0)).unwrap_or(-1)
-    }
 }
 
 thread_local! {
